@@ -93,7 +93,7 @@ impl<'tcx> Cx<'tcx> {
                 if tcx.impl_is_of_trait(parent) {
                     let tr = tcx.impl_trait_ref(parent).instantiate_identity().skip_norm_wip();
                     let tp = tcx.def_path_str(tr.def_id);
-                    let extra: Vec<String> = tr.args.iter().skip(1).filter_map(|a| a.as_type()).map(|t| t.to_string()).collect();
+                    let extra: Vec<String> = tr.args.iter().skip(1).filter_map(|a| a.as_type()).filter(|t| *t != self_ty).map(|t| t.to_string()).collect();
                     let ta = if extra.is_empty() { String::new() } else { format!("<{}>", extra.join(", ")) };
                     return format!("<{} as {}{}>::{}", sq, tp, ta, name);
                 }
@@ -178,7 +178,7 @@ impl<'tcx> Cx<'tcx> {
                         if adt.variants().len() > vidx.as_usize() {
                             let v = adt.variant(vidx);
                             if v.fields.len() > f.as_usize() {
-                                name = format!("{}:{}", f.as_usize(), v.fields[f].name);
+                                name = format!("{}:{}@{}", f.as_usize(), v.fields[f].name, tcx.def_path_str(adt.did()));
                             }
                         }
                     }
